@@ -58,8 +58,6 @@ package setec
 //@   ensures [C16 lookup.gate] (!old(has(s.active.m, name)) && !s.allowLookup) ==> (sec == nil && err != nil && net == old(net) && sameEntries(s))
 //@   ensures [C16 lookup.known-no-request] old(has(s.active.m, name)) ==> (sec != nil && err == nil && net == old(net) && sameEntries(s))
 //@   ensures [C12 lookup.inv] storeInv(s) && !s.active.Mutex && handlesKept(s)
-//@ func (*Store).initializeActive(s, ctx) (err)
-//@   ensures true
 //@ func NewStore(ctx, cfg) (s, err)
 //@   ensures true
 //@ func (*Store).run(s, ctx, interval, done)
@@ -69,8 +67,6 @@ package setec
 //@ func (*Store).lookupWatcher(s, ctx, name) (w, err)
 //@   ensures true
 //@ func (watcher).notify(w)
-//@   ensures true
-//@ func (StoreConfig).secretNames(c) (sec, svs, err)
 //@   ensures true
 //@ func NewFileClient(path) (fc, err)
 //@   ensures true
@@ -196,3 +192,51 @@ package setec
 //@   ensures [C11,C12 refresh.values-served] forall n string :: has(s.active.m, n) ==> (s.active.m[n].Secret == old(s.active.m[n].Secret) || served(n, ref(s.active.m[n].Secret)))
 //@   ensures [C11 refresh.poll-failure-keeps-old] (err != nil && cacheWrites == old(cacheWrites)) ==> sameEntries(s)
 //@   ensures [C19 refresh.drops] forall n string :: (old(has(s.active.m, n)) && !has(s.active.m, n)) ==> (old(mayExpire(s, n)) && !has(s.active.f, n))
+
+// ---- construction --------------------------------------------------------------------------
+// during construction a declared name may still map to nil (value not obtained yet)
+//@ pred partialOK(s *Store) { s != nil && allocated(s) && s.active.m != nil && allocated(s.active.m) && s.timeNow != nil && s.logf != nil &&
+//@      (forall n string :: (has(s.active.m, n) && s.active.m[n] != nil) ==> (allocated(s.active.m[n]) && s.active.m[n].Secret != nil && allocated(s.active.m[n].Secret))) &&
+//@      (forall n string, k string :: (has(s.active.m, n) && has(s.active.m, k) && n != k && s.active.m[n] != nil) ==> s.active.m[n] != s.active.m[k]) }
+//@ func sleepFor(ctx, d)
+//@   requires ctx != nil
+//@   ensures [C10 sleep.waits-once] waits == old(waits) + 1 && clock >= old(clock) && net == old(net)
+//@ func (*Store).isActiveSetValid(s) (ok)
+//@   requires s != nil
+//@   ensures [C13 valid.iff] ok == (forall k string :: has(s.active.m, k) ==> (k != "" && s.active.m[k] != nil && s.active.m[k].Secret != nil))
+//@   loop 0
+//@     invariant [so-far] forall k string :: visited(k) ==> (k != "" && s.active.m[k] != nil && s.active.m[k].Secret != nil)
+//@     invariant [sub] forall k string :: visited(k) ==> has(s.active.m, k)
+
+//@ func (*Store).initializeActive(s, ctx) (err)
+//@   requires partialOK(s) && s.client != nil && ctx != nil
+//@   ensures [C10 init.all-filled] err == nil ==> (forall n string :: has(s.active.m, n) ==> (s.active.m[n] != nil && s.active.m[n].Secret != nil))
+//@   ensures [C10 init.keeps-obtained] forall n string :: old(has(s.active.m, n) && s.active.m[n] != nil) ==> (s.active.m[n] == old(s.active.m[n]) && s.active.m[n].Secret == old(s.active.m[n].Secret))
+//@   ensures [C10 init.domain] forall n string :: has(s.active.m, n) == old(has(s.active.m, n))
+//@   ensures [C10,C19 init.fetched-are-declared-and-served] forall n string :: (has(s.active.m, n) && old(s.active.m[n]) == nil && s.active.m[n] != nil) ==> (s.active.m[n].Declared && served(n, ref(s.active.m[n].Secret)))
+//@   ensures [C10 init.inv] partialOK(s)
+//@   ensures [C10 init.fileclient-never-waits] isType(s.client, "*FileClient") ==> waits == old(waits)
+//@   ensures [C10 init.no-request-when-complete] (forall n string :: old(has(s.active.m, n)) ==> old(s.active.m[n]) != nil) ==> (net == old(net) && err == nil)
+//@   at call Get: assert [C10 init.fetch-only-missing] has(s.active.m, arg_name) && s.active.m[arg_name] == nil
+//@   at call sleepFor: assert [C10 init.pause-at-most-a-few-seconds] 0 < arg_d && arg_d < 8000000000
+//@   loop 0
+//@     invariant [backoff-bound] 0 < retryWait && retryWait < 8000000000
+//@     invariant [state] partialOK(s) && s.client != nil && ctx != nil && net >= old(net)
+//@     invariant [kept] forall n string :: old(has(s.active.m, n) && s.active.m[n] != nil) ==> (s.active.m[n] == old(s.active.m[n]) && s.active.m[n].Secret == old(s.active.m[n].Secret))
+//@     invariant [domain] forall n string :: has(s.active.m, n) == old(has(s.active.m, n))
+//@     invariant [fetched] forall n string :: (has(s.active.m, n) && old(s.active.m[n]) == nil && s.active.m[n] != nil) ==> (s.active.m[n].Declared && served(n, ref(s.active.m[n].Secret)))
+//@     invariant [fileclient] isType(s.client, "*FileClient") ==> waits == old(waits)
+//@     invariant [complete] (forall n string :: old(has(s.active.m, n)) ==> old(s.active.m[n]) != nil) ==> net == old(net)
+//@   loop 1
+//@     invariant [state] partialOK(s) && s.client != nil && ctx != nil && net >= old(net) && missing >= 0
+//@     invariant [kept] forall n string :: old(has(s.active.m, n) && s.active.m[n] != nil) ==> (s.active.m[n] == old(s.active.m[n]) && s.active.m[n].Secret == old(s.active.m[n].Secret))
+//@     invariant [domain] forall n string :: has(s.active.m, n) == old(has(s.active.m, n))
+//@     invariant [fetched] forall n string :: (has(s.active.m, n) && old(s.active.m[n]) == nil && s.active.m[n] != nil) ==> (s.active.m[n].Declared && served(n, ref(s.active.m[n].Secret)))
+//@     invariant [filled] missing == 0 ==> (forall n string :: visited(n) ==> (s.active.m[n] != nil && s.active.m[n].Secret != nil))
+//@     invariant [fileclient] isType(s.client, "*FileClient") ==> waits == old(waits)
+//@     invariant [complete] (forall n string :: old(has(s.active.m, n)) ==> old(s.active.m[n]) != nil) ==> (net == old(net) && missing == 0)
+//@     progress [C10 init.returns-when-context-ends] missing == iterstart(missing) || ctxErrAt(ctx, clock) == nil
+
+//@ func (StoreConfig).secretNames(c) (sec, svs, err)
+//@   ensures [C10 names.nonempty-distinct] err == nil ==> ((forall j int :: (0 <= j && j < len(sec)) ==> sec[j] != "") && (forall i int, j int :: (0 <= i && i < j && j < len(sec)) ==> sec[i] != sec[j]))
+//@   ensures [C10,C20 names.listed-included] err == nil ==> (forall i int :: (0 <= i && i < len(c.Secrets)) ==> (exists j int :: 0 <= j && j < len(sec) && sec[j] == c.Secrets[i]))
